@@ -11,7 +11,7 @@ RULES = {
     "C04": [("sa.rules.b2", "r_C04"), ("sa.rules.c04", "r_C04a"), ("sa.rules.c04", "r_C04num"), ("sa.rules.c04", "r_C04defaults"), ("sa.rules.c01", "r_C01ef"), ("sa.rules.cmisc", "r_C06bcd")],
     "C05": [("sa.rules.b3", "r_C05_C10"), ("sa.rules.c05", "r_C05cde"), ("sa.rules.c14", "r_C14h")],
     "C06": [("sa.rules.b7", "r_origin"), ("sa.rules.cmisc", "r_C06bcd")],
-    "C07": [("sa.rules.b3", "r_C07"), ("sa.rules.b6", "r_C03bc"), ("sa.rules.c03", "r_C03fgh"), ("sa.rules.c05", "r_C07c"), ("sa.rules.c05", "r_none_tests"), ("sa.rules.c01", "r_C01i")],
+    "C07": [("sa.rules.b3", "r_C07"), ("sa.rules.b6", "r_C03bc"), ("sa.rules.c03", "r_C03fgh"), ("sa.rules.c05", "r_C07c"), ("sa.rules.c05", "r_none_tests"), ("sa.rules.c01", "r_C01i"), ("sa.rules.c25", "r_who_writes")],
     "C08": [("sa.rules.b3", "r_C08_C34"), ("sa.rules.b3", "r_C02cd"), ("sa.rules.c08", "r_C08bc")],
     "C09": [("sa.rules.b3", "r_C09"), ("sa.rules.b3", "r_C07"), ("sa.rules.cmisc", "r_C13d_C34f_C09d"), ("sa.rules.c08", "r_C08bc"), ("sa.rules.b3", "r_C08_C34")],
     "C10": [("sa.rules.b3", "r_C05_C10"), ("sa.rules.c05", "r_none_tests"), ("sa.rules.cmisc", "r_C10e"), ("sa.rules.b6", "r_C03bc"), ("sa.rules.c03", "r_C03fgh")],
@@ -29,16 +29,16 @@ RULES = {
     "C22": [("sa.rules.c22", "r_rule_params_eval"), ("sa.rules.b6", "r_C19a_C01"), ("sa.rules.b6", "r_C17ad_C22b"), ("sa.rules.c22", "r_visitor"), ("sa.rules.c22", "r_C22jk")],
     "C23": [("sa.rules.b6", "r_C23"), ("sa.rules.c22", "r_rule_params_eval"), ("sa.rules.c22", "r_visitor"), ("sa.rules.c22", "r_C23g_C24d")],
     "C24": [("sa.peg", "r_C24"), ("sa.rules.c16", "r_cachekeys"), ("sa.rules.c22", "r_C23g_C24d")],
-    "C25": [("sa.rules.b2", "r_C25"), ("sa.rules.c25", "r_C25efg")],
+    "C25": [("sa.rules.b2", "r_C25"), ("sa.rules.c25", "r_C25efg"), ("sa.rules.c01", "r_C01i"), ("sa.rules.c25", "r_who_writes")],
     "C26": [("sa.rules.b2", "r_C26a"), ("sa.rules.b2", "r_C26bcdef"), ("sa.rules.c26", "r_C26eval")],
-    "C27": [("sa.rules.b1", "r_C27"), ("sa.rules.c25", "r_C27d")],
+    "C27": [("sa.rules.b1", "r_C27"), ("sa.rules.c25", "r_C27d"), ("sa.rules.c25", "r_who_writes")],
     "C28": [("sa.rules.b7", "r_origin"), ("sa.rules.b3", "r_C28b_C33b_C30bc"), ("sa.rules.c08", "r_C08bc"), ("sa.rules.cmisc", "r_C06bcd"), ("sa.rules.c25", "r_C28cd"), ("sa.rules.c25", "r_C28e"), ("sa.rules.c25", "r_C28f")],
     "C29": [("sa.rules.b5", "r_C29"), ("sa.rules.c29", "r_export2"), ("sa.rules.c29", "r_C29e"), ("sa.rules.c29", "r_C31d_C29f")],
     "C30": [("sa.rules.b1", "r_C30a"), ("sa.rules.b3", "r_C28b_C33b_C30bc"), ("sa.rules.c29", "r_cli2"), ("sa.rules.c26", "r_C26eval")],
     "C31": [("sa.rules.b4", "r_ledger"), ("sa.rules.c14", "r_ledger2"), ("sa.rules.c29", "r_export2"), ("sa.rules.c29", "r_C31d_C29f")],
     "C32": [("sa.rules.c32", "r_C32"), ("sa.rules.c32", "r_C32c"), ("sa.rules.c32", "r_C32de")],
     "C33": [("sa.rules.b1", "r_C33a"), ("sa.rules.b3", "r_C28b_C33b_C30bc"), ("sa.rules.c29", "r_C33c_C34g"), ("sa.rules.cmisc", "r_C06bcd")],
-    "C34": [("sa.rules.b3", "r_C08_C34"), ("sa.rules.c08", "r_C08bc"), ("sa.rules.cmisc", "r_C13d_C34f_C09d"), ("sa.rules.c29", "r_C33c_C34g"), ("sa.rules.cmisc", "r_C06bcd")],
+    "C34": [("sa.rules.b3", "r_C08_C34"), ("sa.rules.c08", "r_C08bc"), ("sa.rules.cmisc", "r_C13d_C34f_C09d"), ("sa.rules.c29", "r_C33c_C34g"), ("sa.rules.cmisc", "r_C06bcd"), ("sa.rules.c25", "r_who_writes")],
 }
 
 # findings of one property that are *also* reported under another (same defect, two properties)
@@ -55,7 +55,7 @@ ALSO = {
     # "a repeated load of the same file returns the cached model": cleanup of a failed load must not evict finished models
     "C17": {"C18": ("C18.b",)},
     # the reference spans of _pos_crossref_list are the (position, position_end) queued with each ObjCrossRef
-    "C34": {"C08": ("C08.c",), "C06": ("C06.b",)},
+    "C34": {"C08": ("C08.c",), "C06": ("C06.b",), "C07": ("C07.d",)},
     # a user object's own position must replace the class-level one (C06.b) before a processor error is located with it
     "C33": {"C06": ("C06.b",)},
     # the CLI prints file:line:col of the error it gets
@@ -76,6 +76,8 @@ ALSO = {
     "C16": {"C01": ("C01.d",), "C15": ("C15.c", "C15.d", "C15.h",), "C14": ("C14.a", "C14.f", "C14.i",)},
     # C10 'ending in an object of the target type': the conformance test textx_isinstance
     "C10": {"C03": ("C03.c", "C03.h",)},
+    # the type a (possibly qualified) reference names is kept over repeated assignments
+    "C25": {"C01": ("C01.i",)},
 }
 
 # general clause families (sa/rules/gen.py): registered for every property they can attribute a finding to
